@@ -36,10 +36,15 @@ Proof. repeat split; vm_compute; reflexivity. Qed.
 (* lifted definitions exist in the examples (the key lemma is exercised): share_<f>_<n> *)
 Lemma shared_example_lifts : (2 <= List.length (cpdefs (compiled_or_empty ex_shared)) - 2)%nat.
 Proof. vm_compute. repeat constructor. Qed.
-(* the guard is not implied by acceptance: the three witnesses of the known findings are outside *)
-Lemma guard_rejects_witnesses :
-  prog_tyguard capture_witness = false /\ prog_tyguard call_main_witness = false /\
-  prog_tyguard WtDefs.capture_typing_witness = false /\ prog_tyguard main_nonint_witness = false.
+(* the guard is not implied by acceptance: the witnesses of the finding call-to-main and of the former finding
+   main-non-integer-result are outside.  The two witnesses of the former finding capture-under-binder (repaired in /repo
+   by <commitcap>; the guard has no capture clause any more) are INSIDE, although the syntactic detector
+   [shadowing_risk_prog] fires on them, and the conclusion of the theorem is evaluated on them too. *)
+Lemma guard_on_witnesses :
+  prog_tyguard call_main_witness = false /\ prog_tyguard main_nonint_witness = false /\
+  (prog_tyguard capture_witness = true /\ shadowing_risk_prog capture_witness = true /\ f2c_ok capture_witness = true) /\
+  (prog_tyguard WtDefs.capture_typing_witness = true /\ shadowing_risk_prog WtDefs.capture_typing_witness = true /\
+   f2c_ok WtDefs.capture_typing_witness = true).
 Proof. repeat split; vm_compute; reflexivity. Qed.
 
 (* ---------- hypothesis H_focus_wt of the old compositions is FALSE as stated ----------
